@@ -74,7 +74,7 @@ impl Consumer for Scripted {
         self.answer()
     }
     fn consume_header(&mut self, h: dr::ModuleHeader) -> ParseAction {
-        self.log.push(Ev::Header(h.version, h.bound));
+        self.log.push(Ev::Header(h.version & 0x00FF_FF00, h.bound));
         self.answer()
     }
     fn consume_instruction(&mut self, i: dr::Instruction) -> ParseAction {
@@ -190,7 +190,8 @@ fn cases(max_good: usize) -> Vec<Case> {
 fn expected_log(c: &Case) -> Vec<Ev> {
     let mut full = vec![Ev::Init];
     if let Some((v, b)) = c.header {
-        full.push(Ev::Header(v, b));
+        // (major / minor bytes of the version word: the other two are reserved)
+        full.push(Ev::Header(v & 0x00FF_FF00, b));
         for i in &c.good {
             let d = model::to_dr(i).expect("good instruction constructible");
             full.push(Ev::Inst(model::from_dr(&d), d.class.opname));
